@@ -507,4 +507,64 @@ theorem PSD.read_encT {pad : Nat} {x : PSD} (hwf : x.WF pad) :
   congr 2
   omega
 
+/-! ### re-writing the re-read document -/
+
+theorem LayerInfo.refresh_layerCount (li : LayerInfo) : li.refresh.layerCount = li.layerCount := by
+  unfold LayerInfo.refresh
+  split
+  · rfl
+  · split <;> rfl
+
+theorem LayerInfo.encT_refresh (v pad : Nat) (li : LayerInfo) : li.refresh.encT v pad = li.encT v pad := by
+  unfold LayerInfo.encT
+  rw [LayerInfo.refresh_layerCount, LayerInfo.refresh_idem]
+
+theorem LayerInfo.Fits_refresh (v pad : Nat) (li : LayerInfo) : li.refresh.Fits v pad ↔ li.Fits v pad := by
+  unfold LayerInfo.Fits
+  rw [LayerInfo.refresh_layerCount, LayerInfo.refresh_idem]
+
+theorem LayerAndMask.bodyT_refresh (v pad : Nat) (x : LayerAndMask) : x.refresh.bodyT v pad = x.bodyT v pad := by
+  obtain ⟨li, g, ts⟩ := x
+  cases li <;> simp [LayerAndMask.refresh, LayerAndMask.bodyT, optT', LayerInfo.encT_refresh]
+
+theorem LayerAndMask.encT_refresh (v pad : Nat) (x : LayerAndMask) : x.refresh.encT v pad = x.encT v pad := by
+  simp only [LayerAndMask.encT, LayerAndMask.bodyT_refresh]
+
+theorem LayerAndMask.Fits_refresh (v pad : Nat) (x : LayerAndMask) : x.refresh.Fits v pad ↔ x.Fits v pad := by
+  obtain ⟨li, g, ts⟩ := x
+  cases li with
+  | none => simp [LayerAndMask.refresh]
+  | some li =>
+    have hb := LayerAndMask.bodyT_refresh v pad ⟨some li, g, ts⟩
+    simp only [LayerAndMask.refresh, Option.map_some] at hb
+    simp only [LayerAndMask.Fits, LayerAndMask.refresh, Option.map_some, optProp, LayerInfo.Fits_refresh, hb]
+
+theorem PSD.encT_refresh (pad : Nat) (x : PSD) : x.refresh.encT pad = x.encT pad := by
+  simp only [PSD.refresh_eq, PSD.encT, LayerAndMask.encT_refresh]
+
+theorem PSD.writeError_refresh (pad : Nat) (x : PSD) : x.refresh.writeError pad = x.writeError pad := by
+  have h1 : x.refresh.Fits₁ ↔ x.Fits₁ := by simp only [PSD.refresh_eq, PSD.Fits₁]
+  have h2 : x.refresh.Fits₂ pad ↔ x.Fits₂ pad := by
+    simp only [PSD.refresh_eq, PSD.Fits₂, LayerAndMask.Fits_refresh]
+  have h3 : x.refresh.header = x.header := rfl
+  unfold PSD.writeError
+  simp only [h1, h2, h3]
+
+theorem PSD.enc_refresh (pad : Nat) (x : PSD) : PSD.enc pad x.refresh = PSD.enc pad x := by
+  unfold PSD.enc
+  rw [PSD.writeError_refresh, PSD.encT_refresh]
+
+theorem PSD.enc_ok {pad : Nat} {x : PSD} {bs : B} (h : PSD.enc pad x = .ok bs) : bs = x.encT pad := by
+  unfold PSD.enc at h
+  split at h
+  · cases h
+  · cases h; rfl
+
+theorem PSD.encW_eq (pad : Nat) (x : PSD) :
+    PSD.encW pad x = (PSD.enc pad x).map (fun bs => (bs, bs.length)) := by
+  unfold PSD.encW PSD.enc
+  split
+  · rfl
+  · simp only [Except.map, PSD.encP_eq]
+
 end PsdVerif.Psd
